@@ -436,4 +436,90 @@ theorem T0x0102_Parse_total (fuel : Nat) (t : model_T0x0102) (j : jt808_JTMessag
   simp only [model_T0x0102_Parse, model_T0x0102_Parse_j2, model_T0x0102_Parse_j1, cutNul_ok]
   go_total
 
+/-! ### encoders of the alarm-sign block, 0x9208 and 0x1210 -/
+
+/-- the value `String2FillingBytes` returns for a non-negative size -/
+def fillV (t : Bytes) (size : Int) : Bytes :=
+  if (t.length : Int) < size then t ++ List.replicate (size - t.length).toNat 0 else if (t.length : Int) > size then t.take size.toNat else t
+
+theorem String2FillingBytes_ok (fuel : Nat) (t : Bytes) (size : Int) (h : 0 ≤ size) :
+    utils_String2FillingBytes fuel t size = X.ok (fillV t size) := by
+  unfold utils_String2FillingBytes fillV
+  by_cases h1 : (t.length : Int) < size
+  · have c : decide (len t < size) = true := by simp [h1]
+    simp only [c, if_true, make, show (0 : Int) ≤ size - len t from by simp; omega, X.bind_ok, if_pos h1, len_eq]
+  · have c : decide (len t < size) = false := by simp [h1]
+    simp only [c, Bool.false_eq_true, if_false, if_neg h1]
+    by_cases h2 : (t.length : Int) > size
+    · have c2 : decide (len t > size) = true := by simp [h2]
+      have hs : sliceTo t size = X.ok (t.take size.toNat) := by
+        unfold sliceTo; rw [slice_int t 0 size (by omega)]; simp
+      simp only [c2, if_true, hs, X.bind_ok, if_pos h2]
+    · have c2 : decide (len t > size) = false := by simp [h2]
+      simp only [c2, Bool.false_eq_true, if_false, X.bind_ok, if_neg h2]
+
+theorem AlarmSign_encode_total (fuel : Nat) (p : model_P9208AlarmSign) (h : p.Time.length + 1 < fuel) :
+    (model_P9208AlarmSign_encode fuel p).isOk = true := by
+  obtain ⟨a, ha, ea⟩ := idLen_ok fuel p
+  obtain ⟨b, hb, eb⟩ := asLen_ok fuel p
+  simp only [model_P9208AlarmSign_encode, ea, eb, X.bind_ok, String2FillingBytes_ok fuel _ a ha, Time2BCD_ok _ _ h]
+  go_total
+
+/-- the value the alarm-sign encoder returns -/
+def asEncV (fuel : Nat) (p : model_P9208AlarmSign) : model_P9208AlarmSign × Bytes :=
+  match model_P9208AlarmSign_encode fuel p with | .ok r => r | _ => (p, [])
+
+theorem AlarmSign_encode_ok (fuel : Nat) (p : model_P9208AlarmSign) (h : p.Time.length + 1 < fuel) :
+    model_P9208AlarmSign_encode fuel p = X.ok (asEncV fuel p) := by
+  have := AlarmSign_encode_total fuel p h
+  unfold asEncV
+  cases hr : model_P9208AlarmSign_encode fuel p with
+  | ok r => rfl
+  | panic => rw [hr] at this; cases this
+  | fuel => rw [hr] at this; cases this
+
+theorem P0x9208_Encode_total (fuel : Nat) (p : model_P0x9208) (h : p.P9208AlarmSign.Time.length + 1 < fuel) :
+    (model_P0x9208_Encode fuel p).isOk = true := by
+  simp only [model_P0x9208_Encode, AlarmSign_encode_ok fuel _ h, String2FillingBytes_ok fuel _ 32 (by omega)]
+  go_total
+
+theorem T0x1210_Encode_loop_total (t : model_T0x1210) (rng : List model_T0x1210AlarmItem) : ∀ (fuel i : Nat) (data : Bytes),
+    rng.length - i < fuel → (model_T0x1210_Encode_loop1 fuel t data rng (i : Int)).isOk = true
+  | 0, _, _, h => by omega
+  | fuel + 1, i, data, h => by
+    unfold model_T0x1210_Encode_loop1
+    by_cases hlt : i < rng.length
+    · have c : decide ((i : Int) < Int.ofNat rng.length) = true := by simp; omega
+      have hl : lidx rng (i : Int) = X.ok rng[i] := by unfold lidx; simp [hlt]
+      simp only [c, if_true, hl, X.bind_ok]
+      have := T0x1210_Encode_loop_total t rng fuel (i + 1) (data ++ [rng[i].FileNameLen] ++ rng[i].FileName ++ Go.be32 rng[i].FileSize) (by omega)
+      rw [show ((i : Int) + 1) = ((i + 1 : Nat) : Int) by push_cast; rfl]
+      exact this
+    · have c : decide ((i : Int) < Int.ofNat rng.length) = false := by simp; omega
+      simp only [c, Bool.false_eq_true, if_false]; rfl
+
+theorem T0x1210_Encode_total (fuel : Nat) (t : model_T0x1210) (h : t.P9208AlarmSign.Time.length + 1 < fuel)
+    (hl : t.T0x1210AlarmItemList.length < fuel) : (model_T0x1210_Encode fuel t).isOk = true := by
+  obtain ⟨a, ha, ea⟩ := idLen_ok fuel t.P9208AlarmSign
+  have loop : ∀ (t' : model_T0x1210) (d : Bytes), (model_T0x1210_Encode_loop1 fuel t' d t.T0x1210AlarmItemList (0 : Int)).isOk = true :=
+    fun t' d => T0x1210_Encode_loop_total t' _ fuel 0 d (by omega)
+  have fin : ∀ (t' : model_T0x1210) (d : Bytes),
+      (X.bind (model_T0x1210_Encode_loop1 fuel t' d t.T0x1210AlarmItemList (0 : Int)) (fun m => (X.ok (t', m) : X (model_T0x1210 × Bytes)))).isOk = true := by
+    intro t' d
+    have := loop t' d
+    cases hr : model_T0x1210_Encode_loop1 fuel t' d t.T0x1210AlarmItemList (0 : Int) with
+    | ok r => rfl
+    | panic => rw [hr] at this; cases this
+    | fuel => rw [hr] at this; cases this
+  simp only [model_T0x1210_Encode, ea, X.bind_ok, String2FillingBytes_ok fuel _ a ha, AlarmSign_encode_ok fuel _ h,
+    String2FillingBytes_ok fuel _ 32 (by omega), makeCap]
+  by_cases hty : t.P9208AlarmSign.ActiveSafetyType = 2
+  · simp only [hty, bne_self_eq_false, Bool.false_eq_true, if_false, X.bind_ok]
+    simp only [show ((0 : Int) ≤ 0 ∧ (0 : Int) ≤ 60) from by omega, if_true, X.bind_ok]
+    exact fin _ _
+  · have c : (t.P9208AlarmSign.ActiveSafetyType != (2 : UInt8)) = true := by simpa using hty
+    simp only [c, if_true, X.bind_ok]
+    simp only [show ((0 : Int) ≤ 0 ∧ (0 : Int) ≤ 60) from by omega, if_true, X.bind_ok]
+    exact fin _ _
+
 end JT.Gen.GoModel
